@@ -17,34 +17,34 @@ Proof. exact parse_print. Qed.
 Check C23_parse_print : forall s c, parse_coord s = Some c -> print_coord c = s /\ wf_coord c = true.
 Print Assumptions C23_parse_print.
 
-Theorem C23_lookup_sound : forall s c x, wf_schema s -> lookup c s = ROk x -> HasCoord s c x.
+Theorem C23_lookup_sound : forall s c x, wf_schema s -> coord_lookup c s = CoordOk x -> HasCoord s c x.
 Proof. exact lookup_sound. Qed.
-Check C23_lookup_sound : forall s c x, wf_schema s -> lookup c s = ROk x -> HasCoord s c x.
+Check C23_lookup_sound : forall s c x, wf_schema s -> coord_lookup c s = CoordOk x -> HasCoord s c x.
 Print Assumptions C23_lookup_sound.
 
 Theorem C23_lookup_complete : forall s c x,
-  wf_schema s -> nodup_schema s -> HasCoord s c x -> lookup c s = ROk x.
+  wf_schema s -> nodup_schema s -> HasCoord s c x -> coord_lookup c s = CoordOk x.
 Proof. exact lookup_complete. Qed.
 Check C23_lookup_complete : forall s c x,
-  wf_schema s -> nodup_schema s -> HasCoord s c x -> lookup c s = ROk x.
+  wf_schema s -> nodup_schema s -> HasCoord s c x -> coord_lookup c s = CoordOk x.
 Print Assumptions C23_lookup_complete.
 
 Theorem C23_lookup_err_iff : forall s c, wf_schema s -> nodup_schema s ->
-  ((exists e, lookup c s = RErr e) <-> (forall x, ~ HasCoord s c x)).
+  ((exists e, coord_lookup c s = CoordErr e) <-> (forall x, ~ HasCoord s c x)).
 Proof. exact lookup_err_iff. Qed.
 Check C23_lookup_err_iff : forall s c, wf_schema s -> nodup_schema s ->
-  ((exists e, lookup c s = RErr e) <-> (forall x, ~ HasCoord s c x)).
+  ((exists e, coord_lookup c s = CoordErr e) <-> (forall x, ~ HasCoord s c x)).
 Print Assumptions C23_lookup_err_iff.
 
-(* non-vacuity: a concrete coordinate and a concrete schema meeting the hypotheses *)
+(* non-vacuity: a concrete coordinate and a concrete coord_schema meeting the hypotheses *)
 Definition ex_T : str := [84]. Definition ex_f : str := [102]. Definition ex_a : str := [97].
-Definition ex_schema : schema :=
-  {| s_types := [(ex_T, {| t_name := ex_T; t_kind := KObject;
-                           t_attrs := [(ex_f, {| f_name := ex_f; f_args := [ex_a] |})] |})];
-     s_dirs := [] |}.
+Definition ex_schema : coord_schema :=
+  {| cs_types := [(ex_T, {| ct_name := ex_T; ct_kind := CKObject;
+                           ct_attrs := [(ex_f, {| cf_name := ex_f; cf_args := [ex_a] |})] |})];
+     cs_dirs := [] |}.
 Example C23_nonvacuous :
   parse_coord (print_coord (CFieldArg ex_T ex_f ex_a)) = Some (CFieldArg ex_T ex_f ex_a) /\
-  lookup (CFieldArg ex_T ex_f ex_a) ex_schema = ROk (FArgument ex_a) /\
+  coord_lookup (CFieldArg ex_T ex_f ex_a) ex_schema = CoordOk (CFArgument ex_a) /\
   wf_schema ex_schema /\ nodup_schema ex_schema.
 Proof.
   split; [vm_compute; reflexivity|]. split; [vm_compute; reflexivity|].
